@@ -39,7 +39,7 @@ func Harness_C05_waitcond_wake() {
 		}()
 	}
 	if doCancel {
-		go cancel()
+		go func() { cancel() }()
 	}
 	verifFinally(func() {
 		verifAssert(returned, "waitcond_returns")
@@ -66,7 +66,7 @@ func Harness_C05_waitcond_cancel_only() {
 		returned = true
 		mu.Unlock()
 	}()
-	go cancel()
+	go func() { cancel() }()
 	verifFinally(func() {
 		verifAssert(returned && err != nil, "cancel_wakes_waiter_without_broadcast")
 	})
